@@ -318,12 +318,17 @@ _cache: dict[int, CFG] = {}
 
 
 def cfg_of(func) -> CFG:
-    key = id(func)
-    c = _cache.get(key)
-    if c is None:
-        c = CFG(func.body, func.qualname)
-        _cache[key] = c
-    return c
+    # cached on the function object itself: a table keyed by id(func) hands out the graph of a dead object when a later
+    # program model re-uses the address (battery workers build many models in one process)
+    c = getattr(func, "_cfg_cache", None)
+    if c is None or c[0] is not func.body:
+        c = (func.body, CFG(func.body, func.qualname))
+        try:
+            func._cfg_cache = c
+        except AttributeError:
+            key = id(func)
+            _cache[key] = c[1]
+    return c[1]
 
 
 def branch_nodes(cfg: CFG, test_stmt, label):
